@@ -783,6 +783,7 @@ package iavl
 //@ func (*nodeDB).extractStateChanges(ndb, prevVersion, prevRoot, root, receiver) (err)
 //@   props C15
 //@   nosafety
+//@   counts nextracts
 //@   callsite extractStateChanges$1 [prev-exhausted] prevIter.err != nil || len(prevIter.nodesToVisit) == 0
 //@   callsite NodeIterator).Next [skip-only-shared] arg0 == prevIter && arg1 == (sharedNode != nil && (node == sharedNode || ord(node.hash) == ord(sharedNode.hash)))
 //@   callsite extractStateChanges$3 [orphan-leaf] arg0 == node && !shared && node.subtreeHeight == 0
@@ -1159,3 +1160,30 @@ package iavl
 //@   ensures [decision] err == nil ==> ok == (!tree.skipFastStorageUpgrade && (!(ord(tree.ndb.storageVersion) >= ord("1.1.0")) || forceflag))
 //@   ensures [error-means-no] err != nil ==> !ok
 //@   modifies forceflag, nodeDB.latestVersion[*], nodeDB.legacyLatestVersion[*], nodeDB.mtx[*]
+
+// the index build: every pair of the WORKING tree is written, stamped with that tree's version, and the
+// label that says which version the index describes is that same version
+//@ func fastnode.NewNode(key, value, version) (n)
+//@   summary
+//@ func (*nodeDB).SaveFastNodeNoCache(ndb, node) (err)
+//@   summary
+//@ func (*MutableTree).enableFastStorageAndCommit(tree) (err)
+//@   props C07
+//@   nosafety
+//@   requires tree != nil && tree.ImmutableTree != nil && tree.ndb != nil && allocated(tree.ndb) && tree.ndb.db != nil
+//@   callsite NewIterator [whole-working-tree] arg0 == nil && arg1 == nil && arg2 && arg3 == tree.ImmutableTree
+//@   callsite fastnode.NewNode [stamped-with-indexed-version] arg2 == tree.ImmutableTree.version
+//@   callsite nodeDB).SetFastStorageVersionToBatch [label-is-indexed-version] arg1 == tree.ImmutableTree.version
+//@   modifies *
+
+// the version range walk: EVERY version of the range has its change set extracted (against its immediate
+// predecessor's root) before it is reported — a version whose root is a reference to an older node can
+// still differ from its predecessor (removals that collapse the root)
+//@ func (*nodeDB).traverseStateChanges(ndb, startVersion, endVersion, fn) (err)
+//@   props C15
+//@   nosafety
+//@   requires ndb != nil && ndb.db != nil && ndb.firstVersion > 0 && ndb.latestVersion > 0 && ndb.latestVersion < 9223372036854775807
+//@   loop 1 invariant prevVersion == version - 1
+//@   callsite nodeDB).extractStateChanges [consecutive] arg1 == version - 1 && arg2 == prevRoot && arg3 == root
+//@   callsite param:fn [extracted-before-reported] arg0 == version && nextracts == athead(1, nextracts) + 1
+//@   modifies *
